@@ -852,7 +852,7 @@ class StmtMixin:
         dom = st.hread("$ddom", r)
         n = st.hread("$dlen", r)
         ks = fresh("keys", z3.ArraySort(IntS, V))
-        pos = z3.Function(f"keypos!{id(ks) % 100000}", V, IntS)
+        pos = z3.Function(f"keypos!{ks}", V, IntS)   # `ks` is a fresh, uniquely named constant (never derive names from id())
         a, b = fresh("a", IntS), fresh("b", IntS)
         x = fresh("x", V)
         st.assume(z3.ForAll([a], z3.Implies(z3.And(0 <= a, a < n), z3.And(z3.Select(dom, z3.Select(ks, a)), pos(z3.Select(ks, a)) == a))))
